@@ -20,6 +20,7 @@ package ucfg
 import (
 	"fmt"
 	"os"
+	"strconv"
 	"strings"
 
 	"github.com/elastic/go-ucfg/parse"
@@ -392,7 +393,7 @@ func makeFieldOptValueHandling(h configHandling) func(...string) Option {
 			if o.fieldHandlingTree == nil {
 				o.fieldHandlingTree = newFieldHandlingTree()
 			}
-			o.fieldHandlingTree.merge(table, PathSep(o.pathSep))
+			o.fieldHandlingTree.merge(table, PathSep(o.pathSep), fieldHandlingNames)
 		}
 	}
 }
@@ -447,13 +448,49 @@ func (t *fieldHandlingTree) merge(other interface{}, opts ...Option) error {
 	return cfg.Merge(other, opts...)
 }
 
+// fieldHandlingNames: the handling tree holds every component of a field name
+// as a name, also one that looks like a number. That keeps the tree independent
+// of the MaxIdx and EnableNumKeys given to the merge; child looks a list
+// position up under its number.
+var fieldHandlingNames = MaxIdx(-1)
+
 func (t *fieldHandlingTree) child(fieldName string, idx int) (*fieldHandlingTree, error) {
 	cfg := (*Config)(t)
-	child, err := cfg.Child(fieldName, idx)
+	if fieldName == "" && idx >= 0 {
+		fieldName, idx = t.positionName(idx), -1
+	}
+	child, err := cfg.Child(fieldName, idx, fieldHandlingNames)
 	if err != nil {
 		return nil, err
 	}
 	return (*fieldHandlingTree)(child), nil
+}
+
+// positionName returns the name the list position idx is configured under:
+// its decimal number, or another spelling of that number a key would be read
+// as the same position with ("01", "0x1").
+func (t *fieldHandlingTree) positionName(idx int) string {
+	canonical := strconv.Itoa(idx)
+	cfg := (*Config)(t)
+	if cfg.fields == nil {
+		return canonical
+	}
+	d := cfg.fields.dict()
+	if _, ok := d[canonical]; ok {
+		return canonical
+	}
+	found := ""
+	for k := range d {
+		if n, err := strconv.ParseInt(k, 0, 64); err == nil && n == int64(idx) {
+			if found == "" || k < found {
+				found = k
+			}
+		}
+	}
+	if found != "" {
+		return found
+	}
+	return canonical
 }
 
 func (t *fieldHandlingTree) configHandling(fieldName string, idx int) (configHandling, error) {
